@@ -283,6 +283,38 @@ def extremes(chk, seed):
                                        got=float(got[w]) if w >= 0 else None, expected=float(want[w]) if w >= 0 else None))
                     break
         chk.nontriv(("extremes", kind))
+    # batches that are not double precision (0/1 data read as integers, float32 tensors): the composite must still be
+    # the arithmetic on what each leaf returns for THAT batch (leaves that accept the dtype on their own; the
+    # reference is computed in double precision from the leaves' own outputs, tolerance for single-precision leaves)
+    dleaves = {"N": lambda: NeighbourInteraction(c=1), "P": lambda: NeighbourInteraction(periodic_bcs=True, c=2),
+               "S": lambda: SWAP([0, 2])}
+    dtrees = [T("mul", 0.5, "N"), T("mul", "P", 2.75), T("neg", "N"), T("sub", 1, "S"), T("sub", "N", T("mul", 1.5, "P")),
+              T("add", T("mul", -0.25, "S"), T("mul", np.float64(3.5), "N")), T("sub", T("mul", 0.125, "P"), 2)]
+    st = R.make_state("complex", 3, 2, 2, rng.randrange(10 ** 6))
+    for dt in (torch.float32, torch.int64, torch.int32, torch.uint8, torch.bool):
+        g = torch.Generator().manual_seed(rng.randrange(10 ** 6))
+        batch = torch.randint(0, 2, (9, 3), generator=g).to(dt)
+        try:
+            vals = {n: mk().apply(st, batch.clone()).detach().numpy().astype(np.float64) for n, mk in dleaves.items()}
+        except Exception as ex:       # a leaf that does not take this dtype by itself: nothing to compare with
+            chk.assumptions.append("batches of dtype %s not judged (a leaf alone raises %s)" % (dt, type(ex).__name__))
+            continue
+        for t in dtrees:
+            obs = build(t, {n: mk() for n, mk in dleaves.items()})
+            before = batch.clone()
+            chk.evaluations += 1
+            try:
+                got = obs.apply(st, batch).detach().numpy().astype(np.float64)
+            except Exception as ex:
+                chk.violation("extremes:batch-dtype", dict(dtype=str(dt), expression=repr(t), raised=repr(ex)[:300]))
+                break
+            want = value(t, vals)
+            scale = max(1.0, float(np.max(np.abs(want))))
+            if got.shape != want.shape or np.max(np.abs(got - want)) > 2e-6 * scale or not torch.equal(batch, before):
+                chk.violation("extremes:batch-dtype", dict(dtype=str(dt), expression=repr(t), got=got.tolist()[:4],
+                                                           expected=want.tolist()[:4]))
+                break
+        chk.nontriv(("extremes", str(dt)))
 
 
 def spec_controls(chk, names, variants):
